@@ -78,7 +78,7 @@ CHECKS["C12"] = (
 CHECKS["C11"] = (
     "stateful proptest histories (sequential / repeated-builder / concurrent / schedule-change steps) in one worker process vs references from fresh processes; invariant over the history",
     "exploration",
-    "For each drawn pool of inputs (repository headers, generated declaration graphs and extern-heavy programs, some with depfile or static-function wrappers) the bindings text, depfile, wrapper source and callback notification sequence are taken in several fresh processes under two work-list schedules and must coincide; then a generated history of up to 50 steps runs in one further process, including clones of one builder generating repeatedly and 2..16 threads generating the same or different inputs at once, and every produced output must equal its input's reference.",
+    "For each drawn pool of inputs (repository headers, generated declaration graphs and extern-heavy programs, some with depfile or static-function wrappers) the bindings text, depfile, wrapper source and callback notification sequence are taken in several fresh processes under two work-list schedules and must coincide; then a generated history of up to 50 steps runs in one further process, including clones of one builder generating repeatedly and 2..16 threads generating the same or different inputs at once, and every produced output must equal its input's reference. In history steps the side files (depfile, wrapper source) start out as long leftovers of an earlier generation at the same path and must be replaced; C++ pool inputs are also generated repeatedly under an old --rust-target (test-function names carry counters).",
     "Thread interleavings and libclang-internal state are explored by stress only (the harness does not own the schedule); per-process randomness is whatever the OS and std provide across worker processes.",
     "DESIGN.md section 2 / C11",
 )
@@ -119,7 +119,7 @@ CHECKS["C08"] = (
     "proptest-generated C type graphs x subsets of the 10 derive/impl options x per-type exclusions; reference model = direct recursive specification of derivability over the generator's model, observed through rustc trait probes; executed behaviour checks of default()/eq()/fmt()",
     "exploration",
     "For every top-level struct/union and each of Copy(+Clone), Debug, Default, Hash, PartialEq, PartialOrd, Eq, Ord, a specification written from the documented rules (floats: no Hash/Eq/Ord; pointers and enums: no Default; arrays over 32: Default only by hand; zero-length/flexible arrays: no Copy/Hash/PartialEq; function pointers over 12 parameters; Rust unions: Copy only; packed types need Copy; option gating; per-type exclusions propagating to containers; hand-written Default/Debug impls) says whether the trait must be present. Presence is read off a compiled probe that reports `T: Trait` at run time through autoref specialisation, so both directions are checked: no trait where a member cannot support it (such a derive would not even compile) and none withheld. default() must leave every scalar member zero, fmt() must not panic on a zeroed object, == must hold for zeroed objects and fail after a one-bit change in any scalar member.",
-    "latest Rust target; C only (destructors/vtables are C++); types under #pragma pack that are not Copy are not compared; padding bytes cannot be observed after a move, so the all-zero check covers scalar members; cases whose plain bindings fall in C01's known classes are not compared (when Copy is disabled the generator removes packing instead, counted).",
+    "latest Rust target; C only (destructors, vtables and base classes are C++: derives through bases are only judged by C01's compile check); function-pointer members are also spelled through typedef'd function types (metamorphic); types under #pragma pack that are not Copy are not compared; padding bytes cannot be observed after a move, so the all-zero check covers scalar members; cases whose plain bindings fall in C01's known classes are not compared (when Copy is disabled the generator removes packing instead, counted).",
     "DESIGN.md section 2 / C08",
 )
 
@@ -127,7 +127,7 @@ CHECKS["C09"] = (
     "proptest-generated C declaration graphs with a known reference relation x generated root patterns (seven regular-expression forms, five allowlist kinds, blocklists, --no-recursive-allowlist); reference model (regex crate + generator's closure) for roots and minimality, token identity against the full bindings, differential rustc validity of the allowlisted module",
     "exploration",
     "Programs are renamed so that many names are proper prefixes of others. Expected roots are computed with the `regex` crate on whole names per kind; the closure with the generator's reference relation (walking through blocklisted items, as bindgen documents, but never emitting them). Checks: every matching item that the full bindings contain is emitted; every emitted item is owned by a declaration in the closure (or matches a pattern itself); no blocklisted item is emitted; each emitted item and layout assertion is token-identical to the one in the full bindings (modulo derive lists under --no-recursive-allowlist); in recursive mode the allowlisted module compiles on its own whenever the full one does.",
-    "C only (namespaces/methods are not generated); known finding excluded by construction: patterns of the form `.*NN` can match id-derived internal names of anonymous types, so suffix patterns are generated as `[A-Z][0-9]*NN`.",
+    "C only (namespaces/methods are not generated); reference edges that the random programs reach rarely (vector elements, function types, bit-field types, initialised constants, `this` parameters ..) come from snippets, each item of which is also a single-root case; known finding excluded by construction: patterns of the form `.*NN` can match id-derived internal names of anonymous types, so suffix patterns are generated as `[A-Z][0-9]*NN`.",
     "DESIGN.md section 2 / C09",
 )
 
@@ -142,7 +142,7 @@ CHECKS["C10"] = (
 CHECKS["C06"] = (
     "proptest-generated C type graphs and C++ template graphs x targets x assertion forms; completeness predicate over the syn inventory + differential of every asserted number against a `clang --target=T` constant table",
     "exploration",
-    "Both emitted assertion forms (const blocks and #[test] functions) are decoded from the bindings into (type, size, alignment, offsets). Completeness: every concrete struct/union in the emitted inventory has exactly one block with size, alignment and an offset for each exposed named field, and each instantiation with concrete arguments used as a member type has a size/alignment block. Numbers: each asserted number equals the entry of a constant table (sizeof/_Alignof/offsetof expressions over the same header) that clang compiles for the same target, for the host and two drawn targets out of eight incl. 32-bit, Windows and wasm. Off switch: with --no-layout-tests the inventory minus assertion items is identical and no assertion remains.",
+    "Both emitted assertion forms (const blocks and #[test] functions) are decoded from the bindings into (type, size, alignment, offsets). Completeness: every concrete struct/union in the emitted inventory has exactly one block with size, alignment and an offset for each exposed named field, and each instantiation with concrete arguments used as a member (also const-qualified, also inside a class template) or as a base has a size/alignment block. Numbers: each asserted number equals the entry of a constant table (sizeof/_Alignof/offsetof expressions over the same header) that clang compiles for the same target, for the host and two drawn targets out of eight incl. 32-bit, Windows and wasm. Off switch: with --no-layout-tests the inventory minus assertion items is identical and no assertion remains.",
     "clang binary vs libclang agreement per target; anonymous-member types are checked for completeness and relative offsets only; widths portable to ILP32/LLP64 are generated (no __int128, long bit-fields <= 32).",
     "DESIGN.md section 2 / C06",
 )
@@ -150,8 +150,8 @@ CHECKS["C06"] = (
 CHECKS["C01"] = (
     "proptest-generated C programs, C++ graphs, unusual-declaration compositions and clang-accepted mutants of repository headers x option groups x renaming callbacks; validity predicate = rustc accepts the emitted module",
     "exploration",
-    "Every generated (header, option set, callback) triple is run through bindgen in-process and the emitted text is compiled with rustc (metadata-only library build in the selected edition: parsing, name resolution, type checking of derives and impls, evaluation of every const assertion); old-style layout test functions are built with --test and executed. All usable repository headers are compiled as written. A validity predicate over generated programs is the right level: there are many acceptable outputs and the property only demands that rustc accepts them.",
-    "rustc 1.95 judges all --rust-target values; nightly-only output is not compiled; options documented as non-self-contained are not drawn; constructs behind the known findings (packed+aligned combinations, unions emitted as structs inside packed types, derives through packed non-Copy members, virtual bases and non-POD base tail padding, templates with bit-fields or nested classes, alias templates under newtype style, ABI overrides unavailable at the target) are reported as KNOWN-FINDING and partly excluded by construction.",
+    "Every generated (header, option set, callback) triple (plus systematic grids: enum forms x styles, alias styles, helper types inside namespaces, chains of class templates with every derive) is run through bindgen in-process and the emitted text is compiled with rustc (metadata-only library build in the selected edition: parsing, name resolution, type checking of derives and impls, evaluation of every const assertion); old-style layout test functions are built with --test and executed. All usable repository headers are compiled as written. A validity predicate over generated programs is the right level: there are many acceptable outputs and the property only demands that rustc accepts them.",
+    "rustc 1.95 judges all --rust-target values; nightly-only output is not compiled; options documented as non-self-contained are not drawn; constructs behind the known findings (packed+aligned combinations, unions emitted as structs inside packed types, derives through packed non-Copy members, classes derived from classes with virtual bases, non-POD base tail padding, templates with bit-fields, virtual bases or nested classes, alias templates under newtype style, ABI overrides unavailable at the target) are reported as KNOWN-FINDING and partly excluded by construction.",
     "DESIGN.md section 2 / C01",
 )
 
